@@ -48,16 +48,31 @@ impl OutputManager {
             })?;
         }
 
-        // Test write permissions by creating a temporary file
-        let test_file = self.output_dir.join(".write_test");
-        fs::write(&test_file, "test").map_err(|e| {
-            OutputError::PermissionDenied(format!(
-                "Cannot write to output directory {}: {}",
-                self.output_dir.display(),
-                e
-            ))
-        })?;
-        fs::remove_file(&test_file).ok(); // Ignore errors on cleanup
+        // Test write permissions by creating a temporary file. The probe must never clobber a
+        // file that is already there: use a per-process name and create it exclusively.
+        let test_file = self
+            .output_dir
+            .join(format!(".write_test_generated_{}", std::process::id()));
+        match fs::OpenOptions::new()
+            .write(true)
+            .create_new(true)
+            .open(&test_file)
+        {
+            Ok(_) => {
+                fs::remove_file(&test_file).ok(); // Ignore errors on cleanup
+            }
+            Err(e) if e.kind() == std::io::ErrorKind::AlreadyExists => {
+                // Not ours: leave it alone. Its presence says nothing about writability, the
+                // writes that follow report their own errors.
+            }
+            Err(e) => {
+                return Err(OutputError::PermissionDenied(format!(
+                    "Cannot write to output directory {}: {}",
+                    self.output_dir.display(),
+                    e
+                )));
+            }
+        }
 
         Ok(())
     }
